@@ -11,6 +11,7 @@ for k in $(seq 0 $((N-1))); do
     for P in $(cat /tmp/chkshard.$k); do
       VERIF_SEED=$SEED ./check $P --tier $TIER > /tmp/chkshard.$k.log 2>&1; RC=$?
       echo "$P tier=$TIER seed=$SEED exit=$RC $(grep -h '^VIOLATION\|held' /tmp/chkshard.$k.log | tail -1)"
+      if [ $RC -ne 0 ]; then mkdir -p /tmp/chkfail/$P-$SEED; cp /tmp/chkshard.$k.log /tmp/chkfail/$P-$SEED/log.txt; cp -r replays /tmp/chkfail/$P-$SEED/ 2>/dev/null; fi
     done > /tmp/chkshard.$k.out 2>&1
     rm -rf /tmp/vchk$k ) &
 done
